@@ -76,6 +76,10 @@ def shapes(src, cm=None):
             if re.fullmatch(r"'[\w ]*'|None|\d+", c_): local_shapes[f"preset-first-unsafe+last-{c_.strip(chr(39))}"] = [f"{kws[0]}=False", f"{kws[-1]}={c_}"]
     try: tree = ast.parse(src)
     except SyntaxError: return out
+    # an inner call of some other API that happens to carry the same constant-valued keywords as the seed's own calls (so also the keyword the codemod sets, with the value it replaces):
+    # the documented edit concerns the hardened call's own arguments, an argument's inner call is "every other expression"
+    own = [(k.arg, ast.get_source_segment(src, k.value)) for n in ast.walk(tree) if isinstance(n, ast.Call) for k in n.keywords if k.arg and not k.arg.startswith("vf_") and isinstance(k.value, ast.Constant)]
+    if own: local_shapes["nested-call-same-keyword"] = ["vf_nested=vf_inner_fn(vf_inner_arg, " + ", ".join(f"{a}={v}" for a, v in dict(own).items()) + ")"]
     lines = src.splitlines(keepends=True)
     starts = [0]
     for l in lines: starts.append(starts[-1] + len(l))
@@ -212,6 +216,11 @@ def judge(job, res):
         shape = (job.get("labels", {}).get(name) or "?/orig").split("/", 1)[1]
         if bad_removed: v.append(Violation("C16", f"{cm}/lost-tokens/{shape}", f"tokens outside the documented delta disappeared: {sorted(bad_removed)[:6]}", w))
         if bad_added: v.append(Violation("C16", f"{cm}/extra-tokens/{shape}", f"tokens outside the documented delta appeared: {sorted(bad_added)[:6]}", w))
+        # the sentinel inner calls (shapes nested-call-*) are no part of any documented edit: each must come out exactly as it went in
+        inner = lambda text: collections.Counter(ast.unparse(n) for n in ast.walk(ast.parse(text)) if isinstance(n, ast.Call) and isinstance(n.func, ast.Name) and n.func.id == "vf_inner_fn")
+        ia, ib = inner(src), inner(after)
+        if ia: st["inner_calls_compared"] += sum(ia.values())
+        if ia != ib: v.append(Violation("C16", f"{cm}/nested-call-altered/{shape}", f"an argument's inner call was changed: {sorted((ia - ib).elements())[:3]} -> {sorted((ib - ia).elements())[:3]}", w))
         # argument order: argument texts that occur exactly once before and after must keep their relative order
         try:
             fb = [a for call in call_args(src) for a in call if a[1]]; fa = [a for call in call_args(after) for a in call if a[1]]
